@@ -1,48 +1,1167 @@
+// C05 — authorization: a transaction changes state only if it carries a valid signature,
+// over exactly its content, by a key the message's rules authorize.
+//
+// Exhaustive grid (exploration): message type (16) x signing kind (BLS, ed25519, secp256k1,
+// eth-secp256k1, BLS account multisig 2-of-3 with 1/2/3 cosigners, RLP and RLP.V2 Ethereum
+// wrappers) x target object (none, custodial validator, non-custodial validator, open order,
+// locked order ...) x signer role (owner/operator, output address, another validator, stranger,
+// seller, non-seller, certificate proposer, non-proposer) x mode (honest, stranger claiming
+// the owner's public key, re-signed certificate with a swapped proposer key). Every case is
+// put alone in a block and applied on a copy of a real chain (block path: batch verifier in
+// ApplyBlock; single path: FSM.ApplyTransaction / FSM.CheckTx with a nil batch verifier),
+// with the process-wide signature cache cold and warm, and the full raw state is diffed
+// against the same chain with an empty block. Every authorized successful transaction is
+// then tampered with, one field at a time, after signing.
+//
+// The reference authorization relation is written from the property text over the harness'
+// own record of who owns what in the genesis (txlab.World); canopy's GetAuthorizedSignersFor
+// is never consulted.
 package main
 
 import (
+	"bytes"
+	"encoding/hex"
 	"fmt"
+	"os"
+	"runtime/pprof"
+	"sort"
+	"strings"
 	"time"
 
 	"github.com/canopy-network/canopy/fsm"
+	"github.com/canopy-network/canopy/lib"
 	"github.com/canopy-network/canopy/lib/crypto"
 
+	"verifharness/env"
+	"verifharness/mc"
 	"verifharness/txlab"
 )
 
-func main() {
-	w := txlab.NewWorld()
-	t0 := time.Now()
-	l, err := txlab.NewLab(w, 2, nil)
-	if err != nil {
-		panic(err)
+// ---------------------------------------------------------------------------------------
+// case space
+
+var kinds = []string{txlab.KBLS, txlab.KED, txlab.KSECP, txlab.KETH, txlab.KMS1, txlab.KMS2, txlab.KMS3, txlab.KRLP, txlab.KRLPV2}
+
+var roles = []string{"owner", "output", "otherval", "stranger", "seller", "nonseller", "proposer", "nonproposer"}
+
+const (
+	modeHonest = "honest"
+	modeForge  = "forge-owner-pubkey"   // stranger puts the OWNER's public key on the wire, signs with its own key
+	modeClaim  = "claim-proposer"       // certificateResults only: QC.ProposerKey replaced by the signer's key after the committee signed
+	feeDefault = uint64(10000)
+	baseTime   = uint64(1_750_000_000_000_000)
+)
+
+func targetsFor(msg string) []string {
+	switch msg {
+	case fsm.MessageStakeName:
+		return []string{"fresh", "custodial"}
+	case fsm.MessageEditStakeName:
+		return []string{"fresh", "custodial", "noncustodial", "noncustodial-redirect"}
+	case fsm.MessageUnstakeName, fsm.MessagePauseName, fsm.MessageUnpauseName:
+		return []string{"fresh", "custodial", "noncustodial"}
+	case fsm.MessageEditOrderName, fsm.MessageDeleteOrderName:
+		return []string{"fresh", "order-open", "order-locked"}
 	}
-	defer l.Close()
-	fmt.Println("lab", time.Since(t0), "height", l.C.Height())
-	t0 = time.Now()
-	base := l.ProbeBlock(nil, false)
-	fmt.Println("empty probe", time.Since(t0), base.Err, len(base.State))
-	for _, kind := range []string{txlab.KBLS, txlab.KED, txlab.KSECP, txlab.KETH, txlab.KMS1, txlab.KMS2, txlab.KMS3} {
-		a := w.P[txlab.BaseKind(kind)][txlab.PA]
-		tx := txlab.Unsigned(&fsm.MessageSend{FromAddress: a.Addr, ToAddress: w.Recipient, Amount: 1000}, txlab.TxOpts{Created: l.C.Height(), Time: 12345, Fee: 10000, Net: 1, Chain: 1})
-		raw := txlab.SignNative(tx, a, txlab.MsPositions(kind))
-		crypto.SignatureCache.Reset()
-		t0 = time.Now()
-		r := l.ProbeBlock([][]byte{raw}, false)
-		d := txlab.Diff(base.State, r.State)
-		fmt.Println(kind, time.Since(t0), r.Err, r.Failed, r.Included, txlab.DescribeDiff(d, w))
-		t0 = time.Now()
-		after, e := l.ProbeSingle(raw)
-		fmt.Println("  single", time.Since(t0), e, len(txlab.Diff(l.CurrentState(), after)), "checktx:", l.CheckTxSingle(raw))
+	return []string{"fresh"}
+}
+
+// CaseID identifies one grid point (and, with Tamper, one tampered variant of it).
+type CaseID struct {
+	Msg    string `json:"msg"`
+	Kind   string `json:"kind"`
+	Target string `json:"target"`
+	Role   string `json:"role"`
+	Mode   string `json:"mode"`
+	Tamper string `json:"tamper,omitempty"`
+}
+
+func (c CaseID) String() string {
+	s := fmt.Sprintf("%s/%s/%s/%s/%s", c.Msg, c.Kind, c.Target, c.Role, c.Mode)
+	if c.Tamper != "" {
+		s += "/" + c.Tamper
 	}
-	for _, v2 := range []bool{false, true} {
-		a := w.P[txlab.KETH][txlab.PA]
-		raw, _, err := txlab.WrapRLP(&fsm.MessageSend{FromAddress: a.Addr, ToAddress: w.Recipient, Amount: 1000}, a, v2, txlab.TxOpts{Created: l.C.Height(), Fee: 10000, Net: 1, Chain: 1, Nonce: 0})
+	return s
+}
+
+// built is a constructed case with the reference verdict.
+type built struct {
+	id       CaseID
+	raw      []byte
+	wireAddr []byte          // address of the public key that is on the wire (who the chain will believe signed)
+	actual   *txlab.Signer   // who really produced the signature
+	auth     []*txlab.Signer // reference: principals whose keys may authorize this message in this state
+	sigValid bool            // by construction: signature made by the wire key (threshold met) over exactly this content
+	na       string
+}
+
+func (b *built) authorized() bool {
+	for _, a := range b.auth {
+		if bytes.Equal(a.Addr, b.wireAddr) {
+			return true
+		}
+	}
+	return false
+}
+
+type msgPlan struct {
+	msg    lib.MessageI
+	auth   []*txlab.Signer
+	owner  *txlab.Signer
+	output *txlab.Signer
+	qc     *lib.QuorumCertificate
+}
+
+// plan builds the message of a grid point and the reference authorized set. `self` is the
+// signer when the message format forces sender = signer (plain RLP transfers).
+func plan(l *txlab.Lab, id CaseID, self *txlab.Signer) (*msgPlan, string) {
+	w := l.W
+	base := txlab.BaseKind(id.Kind)
+	p := w.P[base]
+	isBLS := base == txlab.KBLS
+	val := func() (addr []byte, op, out *txlab.Signer, exists bool) {
+		switch id.Target {
+		case "fresh":
+			return p[txlab.PN].Addr, p[txlab.PN], p[txlab.POUT], false
+		case "custodial":
+			if id.Msg == fsm.MessageUnpauseName && isBLS {
+				return p[txlab.PVCP].Addr, p[txlab.PVCP], p[txlab.PVCP], true
+			}
+			return p[txlab.PVC].Addr, p[txlab.PVC], p[txlab.PVC], true
+		default:
+			if id.Msg == fsm.MessageUnpauseName && isBLS {
+				return p[txlab.PVNP].Addr, p[txlab.PVNP], p[txlab.POUT], true
+			}
+			return p[txlab.PVN].Addr, p[txlab.PVN], p[txlab.POUT], true
+		}
+	}
+	order := func() (oid []byte, seller *txlab.Signer) {
+		switch id.Target {
+		case "order-open":
+			return w.OrderID(base, "open"), p[txlab.PA]
+		case "order-locked":
+			return w.OrderID(base, "locked"), p[txlab.PA]
+		}
+		return w.OrderID(base, "does-not-exist"), nil
+	}
+	a := p[txlab.PA]
+	pl := &msgPlan{owner: a, output: p[txlab.POUT], auth: []*txlab.Signer{a}}
+	committees, netAddr := []uint64{w.ChainID}, "tcp://edited"
+	if !isBLS {
+		committees, netAddr = []uint64{txlab.RemoteChain}, ""
+	}
+	switch id.Msg {
+	case fsm.MessageSendName:
+		from := a
+		if self != nil {
+			from = self
+			pl.auth, pl.owner = []*txlab.Signer{self}, self
+		}
+		pl.msg = &fsm.MessageSend{FromAddress: from.Addr, ToAddress: w.Recipient, Amount: 1000}
+	case fsm.MessageStakeName:
+		if id.Target == "fresh" {
+			n, out := p[txlab.PN], p[txlab.POUT]
+			pl.msg = &fsm.MessageStake{PublicKey: n.Pub, Amount: txlab.Stake, Committees: committees, NetAddress: netAddr, OutputAddress: out.Addr, Delegate: !isBLS, Compound: true}
+			pl.owner, pl.output, pl.auth = n, out, []*txlab.Signer{n, out}
+		} else {
+			vc := p[txlab.PVC]
+			pl.msg = &fsm.MessageStake{PublicKey: vc.Pub, Amount: txlab.Stake, Committees: committees, NetAddress: netAddr, OutputAddress: vc.Addr, Delegate: !isBLS, Compound: true}
+			pl.owner, pl.output, pl.auth = vc, vc, []*txlab.Signer{vc}
+		}
+	case fsm.MessageEditStakeName:
+		addr, op, out, exists := val()
+		newOut := out.Addr
+		if id.Target == "noncustodial-redirect" {
+			newOut = p[txlab.PX].Addr
+		}
+		pl.msg = &fsm.MessageEditStake{Address: addr, Amount: txlab.Stake + 1000, Committees: committees, NetAddress: netAddr, OutputAddress: newOut, Compound: false}
+		pl.owner, pl.output, pl.auth = op, out, nil
+		if exists {
+			pl.auth = []*txlab.Signer{op, out}
+		}
+	case fsm.MessageUnstakeName, fsm.MessagePauseName, fsm.MessageUnpauseName:
+		addr, op, out, exists := val()
+		switch id.Msg {
+		case fsm.MessageUnstakeName:
+			pl.msg = &fsm.MessageUnstake{Address: addr}
+		case fsm.MessagePauseName:
+			pl.msg = &fsm.MessagePause{Address: addr}
+		default:
+			pl.msg = &fsm.MessageUnpause{Address: addr}
+		}
+		pl.owner, pl.output, pl.auth = op, out, nil
+		if exists {
+			pl.auth = []*txlab.Signer{op, out}
+		}
+	case fsm.MessageChangeParameterName:
+		v, _ := lib.NewAny(&lib.UInt64Wrapper{Value: 10001})
+		pl.msg = &fsm.MessageChangeParameter{ParameterSpace: fsm.ParamSpaceFee, ParameterKey: fsm.ParamSendFee, ParameterValue: v, StartHeight: 1, EndHeight: 1000, Signer: a.Addr}
+	case fsm.MessageDAOTransferName:
+		pl.msg = &fsm.MessageDAOTransfer{Address: a.Addr, Amount: 5000, StartHeight: 1, EndHeight: 1000}
+	case fsm.MessageCertificateResultsName:
+		c0 := w.Committee(0)
+		qc, err := remoteQC(l, c0.Pub)
 		if err != nil {
-			fmt.Println("wrap", err)
+			return nil, "cannot build certificate: " + err.Error()
+		}
+		pl.msg, pl.qc = &fsm.MessageCertificateResults{Qc: qc}, qc
+		pl.owner, pl.auth = c0, []*txlab.Signer{c0}
+		if !isBLS {
+			pl.owner = nil
+		}
+	case fsm.MessageSubsidyName:
+		pl.msg = &fsm.MessageSubsidy{Address: a.Addr, ChainId: txlab.RemoteChain, Amount: 7000}
+	case fsm.MessageCreateOrderName:
+		pl.msg = &fsm.MessageCreateOrder{ChainId: txlab.RemoteChain, AmountForSale: txlab.OrderAmount, RequestedAmount: 500, SellerReceiveAddress: w.Recipient, SellersSendAddress: a.Addr}
+	case fsm.MessageEditOrderName:
+		oid, seller := order()
+		pl.msg = &fsm.MessageEditOrder{OrderId: oid, ChainId: txlab.RemoteChain, AmountForSale: txlab.OrderAmount + 1_000_000_000, RequestedAmount: 600, SellerReceiveAddress: w.Recipient}
+		pl.auth = nil
+		if seller != nil {
+			pl.auth = []*txlab.Signer{seller}
+		}
+	case fsm.MessageDeleteOrderName:
+		oid, seller := order()
+		pl.msg = &fsm.MessageDeleteOrder{OrderId: oid, ChainId: txlab.RemoteChain}
+		pl.auth = nil
+		if seller != nil {
+			pl.auth = []*txlab.Signer{seller}
+		}
+	case fsm.MessageDexLimitOrderName:
+		pl.msg = &fsm.MessageDexLimitOrder{ChainId: txlab.RemoteChain, AmountForSale: 1000, RequestedAmount: 10, Address: a.Addr}
+	case fsm.MessageDexLiquidityDepositName:
+		pl.msg = &fsm.MessageDexLiquidityDeposit{ChainId: txlab.RemoteChain, Amount: 1000, Address: a.Addr}
+	case fsm.MessageDexLiquidityWithdrawName:
+		pl.msg = &fsm.MessageDexLiquidityWithdraw{ChainId: txlab.RemoteChain, Percent: 10, Address: a.Addr}
+	default:
+		return nil, "unknown message"
+	}
+	return pl, ""
+}
+
+// remoteQC builds a certificate of the nested chain signed by its whole committee.
+func remoteQC(l *txlab.Lab, proposerKey []byte) (*lib.QuorumCertificate, error) {
+	rootHeight := l.C.Height() - 1
+	vs, err := l.C.FSM.LoadCommittee(txlab.RemoteChain, rootHeight)
+	if err != nil {
+		return nil, err
+	}
+	results := &lib.CertificateResult{
+		RewardRecipients: &lib.RewardRecipients{PaymentPercents: []*lib.PaymentPercents{{Address: env.Addr(env.BLS(0)).Bytes(), Percent: 100, ChainId: txlab.RemoteChain}}},
+		SlashRecipients:  &lib.SlashRecipients{},
+	}
+	resBz, err := lib.Marshal(results)
+	if err != nil {
+		return nil, err
+	}
+	qc := &lib.QuorumCertificate{
+		Header:      &lib.View{NetworkId: l.W.NetworkID, ChainId: txlab.RemoteChain, Height: 1, RootHeight: rootHeight, Phase: lib.Phase_PRECOMMIT_VOTE},
+		Results:     results,
+		ResultsHash: crypto.Hash(resBz),
+		BlockHash:   crypto.Hash([]byte("verif-remote-block")),
+		ProposerKey: proposerKey,
+	}
+	sb := qc.SignBytes()
+	mk := vs.MultiKey.Copy()
+	for i, v := range vs.ValidatorSet.ValidatorSet {
+		k := env.KeyForPub(v.PublicKey)
+		if k == nil {
+			return nil, fmt.Errorf("no key for committee member")
+		}
+		if e := mk.AddSigner(k.Sign(sb), i); e != nil {
+			return nil, e
+		}
+	}
+	sig, e := mk.AggregateSignatures()
+	if e != nil {
+		return nil, e
+	}
+	qc.Signature = &lib.AggregateSignature{Signature: sig, Bitmap: mk.Bitmap()}
+	return qc, nil
+}
+
+func resolveRole(l *txlab.Lab, id CaseID, pl *msgPlan) *txlab.Signer {
+	base := txlab.BaseKind(id.Kind)
+	p := l.W.P[base]
+	switch id.Role {
+	case "owner":
+		return pl.owner
+	case "output":
+		return pl.output
+	case "otherval":
+		return p[txlab.PVO]
+	case "stranger":
+		return p[txlab.PX]
+	case "seller":
+		return p[txlab.PA]
+	case "nonseller":
+		return p[txlab.PS2]
+	case "proposer":
+		if base == txlab.KBLS {
+			return l.W.Committee(0)
+		}
+	case "nonproposer":
+		if base == txlab.KBLS {
+			return l.W.Committee(1)
+		}
+	}
+	return nil
+}
+
+// build constructs the signed transaction of a grid point.
+func build(l *txlab.Lab, id CaseID, seq uint64) *built {
+	b := &built{id: id}
+	base := txlab.BaseKind(id.Kind)
+	isRLP := id.Kind == txlab.KRLP || id.Kind == txlab.KRLPV2
+	if isRLP {
+		if _, ok := txlab.RLPTypes[id.Msg]; !ok {
+			b.na = "message type cannot be RLP wrapped"
+			return b
+		}
+		if id.Mode != modeHonest {
+			b.na = "mode not expressible for RLP (the key is recovered from the signature)"
+			return b
+		}
+	}
+	if id.Mode == modeClaim && id.Msg != fsm.MessageCertificateResultsName {
+		b.na = "claim-proposer applies to certificateResults only"
+		return b
+	}
+	// first pass without self to find the signer, second pass when the format forces sender=signer
+	pl, na := plan(l, id, nil)
+	if na != "" {
+		b.na = na
+		return b
+	}
+	signer := resolveRole(l, id, pl)
+	if signer == nil {
+		b.na = "role has no principal of this key kind"
+		return b
+	}
+	if isRLP && id.Msg == fsm.MessageSendName {
+		pl, _ = plan(l, id, signer)
+	}
+	if isRLP && id.Msg == fsm.MessageStakeName {
+		// an Ethereum wrapper cannot carry a non-delegate (BLS) stake for an eth key
+		pl.msg.(*fsm.MessageStake).Delegate = true
+	}
+	b.actual, b.auth = signer, pl.auth
+	o := txlab.TxOpts{Created: l.C.Height(), Time: baseTime + seq, Fee: feeDefault + seq%97, Net: l.W.NetworkID, Chain: l.W.ChainID}
+	if id.Mode == modeClaim {
+		// the signer re-labels itself as the certificate's proposer (committee signature untouched)
+		pl.qc.ProposerKey = signer.Pub
+	}
+	switch {
+	case isRLP:
+		o.Fee = feeDefault + seq%9973 // gas doubles as time entropy in the wrapper
+		o.Created = l.C.Height()
+		raw, _, err := txlab.WrapRLP(pl.msg, signer, id.Kind == txlab.KRLPV2, o)
+		if err != nil {
+			b.na = "wrap: " + err.Error()
+			return b
+		}
+		b.raw, b.wireAddr, b.sigValid = raw, signer.Addr, true
+	default:
+		tx := txlab.Unsigned(pl.msg, o)
+		pos := txlab.MsPositions(id.Kind)
+		b.raw = txlab.SignNative(tx, signer, pos)
+		b.wireAddr = signer.Addr
+		b.sigValid = id.Kind != txlab.KMS1 // one cosigner of a 2-of-3 account is below the threshold
+		if id.Mode == modeForge {
+			if pl.owner == nil || bytes.Equal(pl.owner.Addr, signer.Addr) {
+				b.na = "no distinct owner to impersonate"
+				return b
+			}
+			// keep the stranger's signature, present the owner's public key
+			tx.Signature.PublicKey = pl.owner.Pub
+			if base == "ms" {
+				// same bitmap as the forged cosigner set so that only the keys differ
+				pub, _ := pl.owner.SignAs([]byte("x"), pos)
+				tx.Signature.PublicKey = pub
+			}
+			b.raw, b.wireAddr, b.sigValid = txlab.MustMarshal(tx), pl.owner.Addr, false
+		}
+	}
+	return b
+}
+
+// ---------------------------------------------------------------------------------------
+// tampering (wire level, after signing)
+
+var msgFieldKinds = map[string]string{
+	fsm.MessageSendName: "bbvvvv", fsm.MessageStakeName: "bvrsbvvb", fsm.MessageEditStakeName: "bvrsbvb",
+	fsm.MessageUnstakeName: "b", fsm.MessagePauseName: "b", fsm.MessageUnpauseName: "b",
+	fsm.MessageChangeParameterName: "ssmvvbs", fsm.MessageDAOTransferName: "bvvvvs", fsm.MessageCertificateResultsName: "m",
+	fsm.MessageSubsidyName: "bvvb", fsm.MessageCreateOrderName: "vbvvbbb", fsm.MessageEditOrderName: "bvbvvb", fsm.MessageDeleteOrderName: "bv",
+	fsm.MessageDexLimitOrderName: "vvvbb", fsm.MessageDexLiquidityDepositName: "vvbb", fsm.MessageDexLiquidityWithdrawName: "vvbb",
+}
+
+type tamper struct {
+	id    string
+	class string
+	raw   []byte
+}
+
+func flipLast(b []byte) []byte {
+	c := append([]byte{}, b...)
+	if len(c) == 0 {
+		return []byte{1}
+	}
+	c[len(c)-1] ^= 0x01
+	return c
+}
+
+// setField replaces (or appends) the single occurrence of a field.
+func setField(m *txlab.Msg, f *txlab.Field) {
+	for i, x := range m.Fields {
+		if x.Num == f.Num {
+			m.Fields[i] = f
+			return
+		}
+	}
+	m.Fields = append(m.Fields, f)
+	sort.SliceStable(m.Fields, func(i, j int) bool { return m.Fields[i].Num < m.Fields[j].Num })
+}
+
+func tampers(l *txlab.Lab, b *built) []tamper {
+	root, err := txlab.Parse(b.raw, txlab.TxSchema, "")
+	if err != nil {
+		return nil
+	}
+	base := txlab.BaseKind(b.id.Kind)
+	p := l.W.P[base]
+	var out []tamper
+	add := func(id, class string, mut func(m *txlab.Msg)) {
+		c := root.Clone()
+		mut(c)
+		raw := c.Encode()
+		if !bytes.Equal(raw, b.raw) {
+			out = append(out, tamper{id: id, class: class, raw: raw})
+		}
+	}
+	// every top-level field
+	for _, n := range txlab.TxVarintFields {
+		n := n
+		add("tx."+txlab.TxFieldName[n]+"+1", "tx-field", func(m *txlab.Msg) {
+			v := uint64(0)
+			if f := m.Get(n); f != nil {
+				v = f.Varint
+			}
+			setField(m, &txlab.Field{Num: n, WT: txlab.WTVarint, Varint: v + 1})
+		})
+	}
+	for _, n := range txlab.TxStringFields {
+		n := n
+		add("tx."+txlab.TxFieldName[n]+"+x", "tx-field", func(m *txlab.Msg) {
+			var v []byte
+			if f := m.Get(n); f != nil {
+				v = f.Bytes
+			}
+			setField(m, &txlab.Field{Num: n, WT: txlab.WTBytes, Bytes: append(append([]byte{}, v...), 'x')})
+		})
+	}
+	for _, memo := range []string{fsm.RLPIndicator, fsm.RLPV2Indicator} {
+		memo := memo
+		add("tx.memo="+memo, "tx-field", func(m *txlab.Msg) { setField(m, &txlab.Field{Num: 7, WT: txlab.WTBytes, Bytes: []byte(memo)}) })
+	}
+	add("tx.msg.type_url", "tx-field", func(m *txlab.Msg) {
+		a := m.At([]uint64{2})
+		setField(a, &txlab.Field{Num: 1, WT: txlab.WTBytes, Bytes: append(append([]byte{}, a.Get(1).Bytes...), 'x')})
+	})
+	// every message field (present: changed; absent: injected)
+	inner, err := txlab.Parse(root.At([]uint64{2}).Get(2).Bytes, nil, "")
+	if err == nil {
+		ks := msgFieldKinds[b.id.Msg]
+		for i := 0; i < len(ks); i++ {
+			num, k := uint64(i+1), ks[i]
+			name := fmt.Sprintf("msg.f%d", num)
+			mutInner := func(fn func(im *txlab.Msg)) func(m *txlab.Msg) {
+				return func(m *txlab.Msg) {
+					im := inner.Clone()
+					fn(im)
+					setField(m.At([]uint64{2}), &txlab.Field{Num: 2, WT: txlab.WTBytes, Bytes: im.Encode()})
+				}
+			}
+			present := inner.Get(num) != nil
+			switch k {
+			case 'v':
+				add(name+"+1", "msg-field", mutInner(func(im *txlab.Msg) {
+					v := uint64(0)
+					if f := im.Get(num); f != nil {
+						v = f.Varint
+					}
+					setField(im, &txlab.Field{Num: num, WT: txlab.WTVarint, Varint: v + 1})
+				}))
+			case 'b':
+				if present {
+					add(name+"^1", "msg-field", mutInner(func(im *txlab.Msg) {
+						setField(im, &txlab.Field{Num: num, WT: txlab.WTBytes, Bytes: flipLast(im.Get(num).Bytes)})
+					}))
+					// redirect to another principal's address / another order
+					for _, alt := range []struct {
+						n string
+						v []byte
+					}{{"X", p[txlab.PX].Addr}, {"other-order", l.W.OrderID(base, "other")}} {
+						alt := alt
+						add(name+"="+alt.n, "msg-field", mutInner(func(im *txlab.Msg) {
+							setField(im, &txlab.Field{Num: num, WT: txlab.WTBytes, Bytes: alt.v})
+						}))
+					}
+				} else {
+					// fields that PopulateSpecialMessageFields overwrites (Signer, OrderId) and other absent ones
+					for _, alt := range []struct {
+						n string
+						v []byte
+					}{{"A", p[txlab.PA].Addr}, {"X", p[txlab.PX].Addr}, {"open-order", l.W.OrderID(base, "open")}} {
+						alt := alt
+						add(name+":="+alt.n, "msg-overwritten-field", mutInner(func(im *txlab.Msg) {
+							setField(im, &txlab.Field{Num: num, WT: txlab.WTBytes, Bytes: alt.v})
+						}))
+					}
+				}
+			case 's':
+				add(name+"+x", "msg-field", mutInner(func(im *txlab.Msg) {
+					var v []byte
+					if f := im.Get(num); f != nil {
+						v = f.Bytes
+					}
+					setField(im, &txlab.Field{Num: num, WT: txlab.WTBytes, Bytes: append(append([]byte{}, v...), 'x')})
+				}))
+			case 'r':
+				add(name+"+item", "msg-field", mutInner(func(im *txlab.Msg) {
+					var v []byte
+					if f := im.Get(num); f != nil {
+						v = f.Bytes
+					}
+					setField(im, &txlab.Field{Num: num, WT: txlab.WTBytes, Bytes: append(append([]byte{}, v...), 3)})
+				}))
+			case 'm':
+				add(name+"^1", "msg-field", mutInner(func(im *txlab.Msg) {
+					if f := im.Get(num); f != nil {
+						setField(im, &txlab.Field{Num: num, WT: txlab.WTBytes, Bytes: flipLast(f.Bytes)})
+					}
+				}))
+			}
+		}
+	}
+	// the signature block
+	sigSet := func(num uint64, v []byte) func(m *txlab.Msg) {
+		return func(m *txlab.Msg) { setField(m.At([]uint64{3}), &txlab.Field{Num: num, WT: txlab.WTBytes, Bytes: v}) }
+	}
+	origSig := root.At([]uint64{3}).Get(2).Bytes
+	add("sig.signature^1", "signature", sigSet(2, flipLast(origSig)))
+	add("sig.signature^first", "signature", func(m *txlab.Msg) {
+		c := append([]byte{}, origSig...)
+		c[0] ^= 0x80
+		sigSet(2, c)(m)
+	})
+	add("sig.signature-truncated", "signature", sigSet(2, origSig[:len(origSig)-1]))
+	add("sig.signature-zero", "signature", sigSet(2, make([]byte, len(origSig))))
+	// public key swapped for another key of the same kind and of different kinds
+	swap := map[string][]byte{}
+	if same, ok := p[txlab.PX]; ok {
+		swap["same-kind:"+base] = same.Pub
+		if base == "ms" {
+			pub, _ := same.SignAs([]byte("x"), txlab.MsPositions(b.id.Kind))
+			swap["same-kind:"+base] = pub
+		}
+	}
+	for _, k := range txlab.BaseKinds {
+		if k != base {
+			swap["other-kind:"+k] = l.W.P[k][txlab.PX].Pub
+		}
+	}
+	// another kind of key for the SAME secp256k1 scalar (eth <-> secp256k1 share the curve)
+	if base == txlab.KETH || base == txlab.KSECP {
+		if e := b.actual.ECDSA(); e != nil {
+			if base == txlab.KETH {
+				k, _ := crypto.BytesToSECP256K1Private(b.actual.Priv.Bytes())
+				swap["same-scalar:secp256k1"] = k.PublicKey().Bytes()
+			} else {
+				k, _ := crypto.BytesToEthSECP256K1Private(b.actual.Priv.Bytes())
+				swap["same-scalar:eth"] = k.PublicKey().Bytes()
+			}
+		}
+	}
+	names := make([]string, 0, len(swap))
+	for n := range swap {
+		names = append(names, n)
+	}
+	sort.Strings(names)
+	for _, n := range names {
+		add("sig.public_key="+n, "public-key-swap", sigSet(1, swap[n]))
+	}
+	add("sig.public_key^1", "public-key-swap", sigSet(1, flipLast(root.At([]uint64{3}).Get(1).Bytes)))
+	return out
+}
+
+// ---------------------------------------------------------------------------------------
+// worker
+
+type Job struct {
+	Kind     string  `json:"kind"`
+	Msg      string  `json:"msg"`
+	Thorough bool    `json:"thorough"`
+	Confirm  *CaseID `json:"confirm,omitempty"` // commit-confirm job
+	Want     string  `json:"want,omitempty"`    // expected diff digest of the probe
+	Only     *CaseID `json:"only,omitempty"`    // replay of one case
+}
+
+type Result struct {
+	Evaluations   int            `json:"evaluations"`
+	Cases         int            `json:"cases"`
+	Tampered      int            `json:"tampered"`
+	NA            int            `json:"na"`
+	AuthSuccess   int            `json:"auth_success"`
+	AuthSuccessID []CaseID       `json:"auth_success_ids,omitempty"`
+	AuthDigests   []string       `json:"auth_digests,omitempty"`
+	Outcomes      map[string]int `json:"outcomes"`
+	Parts         map[string]int `json:"parts"`
+	Viols         []mc.Viol      `json:"viols,omitempty"`
+	Samples       []any          `json:"samples,omitempty"`
+	CPUms         int64          `json:"cpu_ms"`
+	Err           string         `json:"err,omitempty"`
+}
+
+var (
+	lab        *txlab.Lab
+	baseBlock  []env.KV
+	baseSingle []env.KV
+)
+
+func ensureLab() error {
+	if lab != nil {
+		return nil
+	}
+	l, err := txlab.NewLab(txlab.NewWorld(), 2, nil)
+	if err != nil {
+		return err
+	}
+	pr := l.ProbeBlock(nil, false)
+	if pr.Err != "" {
+		l.Close()
+		return fmt.Errorf("empty block probe: %s", pr.Err)
+	}
+	lab, baseBlock, baseSingle = l, pr.State, l.CurrentState()
+	return nil
+}
+
+func dropLab() {
+	if lab != nil {
+		lab.Close()
+		lab = nil
+	}
+}
+
+type evalOut struct {
+	path    string
+	cache   string
+	changed bool
+	diff    []txlab.Change
+	err     string
+}
+
+// evaluate runs one byte string through every path with the cache cold and warm.
+func evaluate(raw []byte, paths []string) []evalOut {
+	var outs []evalOut
+	for _, path := range paths {
+		crypto.SignatureCache.Reset()
+		for _, cache := range []string{"cold", "warm"} {
+			o := evalOut{path: path, cache: cache}
+			switch path {
+			case "block":
+				pr := lab.ProbeBlock([][]byte{raw}, false)
+				switch {
+				case pr.Err != "":
+					o.err = "block refused: " + pr.Err
+					o.diff = nil
+				default:
+					if len(pr.Failed) > 0 {
+						o.err = pr.Failed[0]
+					}
+					o.diff = txlab.Diff(baseBlock, pr.State)
+				}
+			case "single":
+				after, e := lab.ProbeSingle(raw)
+				o.err = e
+				if after != nil {
+					o.diff = txlab.Diff(baseSingle, after)
+				}
+			case "checktx":
+				o.err = lab.CheckTxSingle(raw)
+			}
+			o.changed = len(o.diff) > 0
+			outs = append(outs, o)
+		}
+	}
+	return outs
+}
+
+// fineOracle: no account is debited and no validator / order is altered unless the wire
+// signer is the owner of that object.
+func fineOracle(b *built, diff []txlab.Change) string {
+	w := lab.W
+	for _, c := range diff {
+		segs := txlab.KeySegments(c.Key)
+		if len(segs) < 2 || len(segs[0]) != 1 {
 			continue
 		}
-		r := l.ProbeBlock([][]byte{raw}, false)
-		fmt.Println("rlp v2=", v2, r.Err, r.Failed, r.Included, txlab.DescribeDiff(txlab.Diff(base.State, r.State), w))
+		switch segs[0][0] {
+		case 1:
+			o, n := new(fsm.Account), new(fsm.Account)
+			_ = lib.Unmarshal(c.Old, o)
+			_ = lib.Unmarshal(c.New, n)
+			addr := segs[len(segs)-1]
+			if n.Amount < o.Amount && !bytes.Equal(addr, b.wireAddr) {
+				return fmt.Sprintf("account %x debited %d -> %d by a transaction of %x", addr, o.Amount, n.Amount, b.wireAddr)
+			}
+		case 3:
+			if b.id.Msg == fsm.MessageCertificateResultsName {
+				continue
+			}
+			addr := segs[len(segs)-1]
+			if vi, ok := w.Vals[hex.EncodeToString(addr)]; ok {
+				if !bytes.Equal(vi.Operator.Addr, b.wireAddr) && !bytes.Equal(vi.Output.Addr, b.wireAddr) {
+					return fmt.Sprintf("validator %s altered by %x (neither operator nor output)", vi.Operator.Name, b.wireAddr)
+				}
+			} else if c.New != nil {
+				n := new(fsm.Validator)
+				_ = lib.Unmarshal(c.New, n)
+				if !bytes.Equal(n.Address, b.wireAddr) && !bytes.Equal(n.Output, b.wireAddr) {
+					return fmt.Sprintf("validator %x created by %x (neither operator nor output)", addr, b.wireAddr)
+				}
+			}
+		case 13:
+			if b.id.Msg == fsm.MessageCertificateResultsName {
+				continue
+			}
+			oid := segs[len(segs)-1]
+			if os, ok := w.Orders[hex.EncodeToString(oid)]; ok {
+				seller := w.P[os.Kind][os.Seller]
+				if !bytes.Equal(seller.Addr, b.wireAddr) {
+					return fmt.Sprintf("order %x of %s altered by %x", oid, seller.Name, b.wireAddr)
+				}
+			} else if c.New != nil {
+				n := new(lib.SellOrder)
+				_ = lib.Unmarshal(c.New, n)
+				if !bytes.Equal(n.SellersSendAddress, b.wireAddr) {
+					return fmt.Sprintf("order %x created with seller %x by %x", oid, n.SellersSendAddress, b.wireAddr)
+				}
+			}
+		}
 	}
+	return ""
+}
+
+func kindClass(kind string) string { return kind }
+
+func judge(res *Result, b *built, raw []byte, tam *tamper, outs []evalOut) {
+	id := b.id
+	okRef := b.authorized() && b.sigValid && tam == nil
+	for _, o := range outs {
+		res.Evaluations++
+		key := fmt.Sprintf("%s|changed=%v|%s", o.path, o.changed || (o.path == "checktx" && o.err == ""), txlab.ErrClass(o.err))
+		res.Outcomes[key]++
+		replay := map[string]any{"case": id, "path": o.path, "cache": o.cache, "tx_hex": hex.EncodeToString(raw), "error": txlab.ShortErr(o.err)}
+		accepted := o.changed
+		if o.path == "checktx" {
+			accepted = o.err == ""
+		}
+		if accepted && !okRef {
+			var sig, why string
+			switch {
+			case tam != nil:
+				id2 := id
+				id2.Tamper = tam.id
+				replay["case"] = id2
+				sig = fmt.Sprintf("C05:tampered-tx-accepted:%s:%s:%s", id.Msg, tam.class, o.path)
+				why = "transaction tampered after signing (" + tam.id + ")"
+			case !b.sigValid:
+				sig = fmt.Sprintf("C05:invalid-signature-accepted:%s:%s:%s:%s", id.Msg, kindClass(id.Kind), id.Mode, o.path)
+				why = "the signature is not a valid signature of the wire key over this content (by construction)"
+			default:
+				sig = fmt.Sprintf("C05:unauthorized-signer-accepted:%s:%s:%s:%s", id.Msg, id.Role, id.Target, o.path)
+				why = fmt.Sprintf("signer %s (%x) is not in the reference authorized set %v", b.actual.Name, b.wireAddr, names(b.auth))
+			}
+			res.Viols = append(res.Viols, mc.Viol{Sig: sig, What: fmt.Sprintf("%s path=%s cache=%s: %s; state diff: %v", id, o.path, o.cache, why, txlab.DescribeDiff(o.diff, lab.W)), Replay: replay})
+		}
+		if o.path != "checktx" && o.err != "" && o.changed {
+			res.Viols = append(res.Viols, mc.Viol{Sig: fmt.Sprintf("C05:rejected-tx-changes-state:%s:%s", id.Msg, o.path),
+				What: fmt.Sprintf("%s path=%s cache=%s rejected with %q but state differs from the empty block: %v", id, o.path, o.cache, txlab.ShortErr(o.err), txlab.DescribeDiff(o.diff, lab.W)), Replay: replay})
+		}
+		if o.changed && okRef {
+			if bad := fineOracle(b, o.diff); bad != "" {
+				res.Viols = append(res.Viols, mc.Viol{Sig: fmt.Sprintf("C05:foreign-object-touched:%s:%s", id.Msg, id.Role),
+					What: fmt.Sprintf("%s path=%s: %s; diff %v", id, o.path, bad, txlab.DescribeDiff(o.diff, lab.W)), Replay: replay})
+			}
+		}
+	}
+}
+
+func names(ss []*txlab.Signer) []string {
+	var o []string
+	for _, s := range ss {
+		o = append(o, s.Name)
+	}
+	return o
+}
+
+func modesFor(msg, role string) []string {
+	m := []string{modeHonest}
+	if role == "stranger" {
+		m = append(m, modeForge)
+	}
+	if msg == fsm.MessageCertificateResultsName && (role == "stranger" || role == "nonproposer" || role == "otherval") {
+		m = append(m, modeClaim)
+	}
+	return m
+}
+
+var allPaths = []string{"block", "single", "checktx"}
+
+func runJob(j Job) (res Result) {
+	start := time.Now()
+	res.Outcomes, res.Parts = map[string]int{}, map[string]int{}
+	defer func() { res.CPUms = time.Since(start).Milliseconds() }()
+	if j.Confirm != nil {
+		return runConfirm(j)
+	}
+	if err := ensureLab(); err != nil {
+		res.Err = err.Error()
+		return
+	}
+	seq := uint64(0)
+	for _, target := range targetsFor(j.Msg) {
+		for _, role := range roles {
+			for _, mode := range modesFor(j.Msg, role) {
+				id := CaseID{Msg: j.Msg, Kind: j.Kind, Target: target, Role: role, Mode: mode}
+				if j.Only != nil && (id.Target != j.Only.Target || id.Role != j.Only.Role || id.Mode != j.Only.Mode) {
+					continue
+				}
+				seq++
+				b := build(lab, id, seq)
+				if b.na != "" {
+					res.NA++
+					res.Parts["na:"+b.na]++
+					continue
+				}
+				res.Cases++
+				res.Parts["base:"+j.Msg]++
+				outs := evaluate(b.raw, allPaths)
+				judge(&res, b, b.raw, nil, outs)
+				blockChanged := outs[0].changed
+				if len(res.Samples) < 2 && (blockChanged || role == "stranger") {
+					res.Samples = append(res.Samples, map[string]any{"case": id.String(), "authorized_ref": b.authorized(), "sig_valid_ref": b.sigValid,
+						"block_path": txlab.ShortErr(outs[0].err), "changed": blockChanged, "diff": txlab.DescribeDiff(outs[0].diff, lab.W), "tx_hex": hex.EncodeToString(b.raw)})
+				}
+				if !(blockChanged && b.authorized() && b.sigValid) {
+					if b.authorized() && b.sigValid {
+						res.Parts["authorized-but-rejected:"+txlab.ErrClass(outs[0].err)]++
+					}
+					continue
+				}
+				res.AuthSuccess++
+				res.Parts["auth-success:"+j.Msg]++
+				res.AuthSuccessID = append(res.AuthSuccessID, id)
+				res.AuthDigests = append(res.AuthDigests, txlab.DiffDigest(outs[0].diff))
+				// tamper every field of the authorized, successful transaction
+				ts := tampers(lab, b)
+				if j.Only != nil && j.Only.Tamper != "" {
+					var keep []tamper
+					for _, t := range ts {
+						if t.id == j.Only.Tamper {
+							keep = append(keep, t)
+						}
+					}
+					ts = keep
+				}
+				touts := make([][]evalOut, len(ts))
+				one := func(path, cache string, raw []byte) evalOut {
+					o := evalOut{path: path, cache: cache}
+					if path == "block" {
+						pr := lab.ProbeBlock([][]byte{raw}, false)
+						if pr.Err != "" {
+							o.err = "block refused: " + pr.Err
+						} else {
+							if len(pr.Failed) > 0 {
+								o.err = pr.Failed[0]
+							}
+							o.diff = txlab.Diff(baseBlock, pr.State)
+						}
+					} else {
+						after, e := lab.ProbeSingle(raw)
+						o.err = e
+						if after != nil {
+							o.diff = txlab.Diff(baseSingle, after)
+						}
+					}
+					o.changed = len(o.diff) > 0
+					return o
+				}
+				// Series: the cache is reset (and for "warm" re-filled by verifying the valid original)
+				// once per series; a rejected signature stores nothing, so the cache content is the
+				// same for every member of a series unless a tampered variant verifies — which is
+				// reported — and then the cache is rebuilt.
+				// The block path reaches the cache through the same VerifyBytes as the single path for
+				// every kind but ed25519 (explicit look-ups in the batch verifier): quick runs
+				// block+warm only there, thorough everywhere.
+				for _, se := range []struct{ path, cache string }{{"block", "cold"}, {"block", "warm"}, {"single", "cold"}, {"single", "warm"}} {
+					if se.path == "block" && se.cache == "warm" && !j.Thorough && txlab.BaseKind(j.Kind) != txlab.KED {
+						continue
+					}
+					prime := func() {
+						crypto.SignatureCache.Reset()
+						if se.cache == "warm" {
+							if se.path == "block" {
+								lab.ProbeBlock([][]byte{b.raw}, false)
+							} else {
+								lab.ProbeSingle(b.raw)
+							}
+						}
+					}
+					prime()
+					for i, t := range ts {
+						o := one(se.path, se.cache, t.raw)
+						touts[i] = append(touts[i], o)
+						if o.err == "" {
+							prime()
+						}
+					}
+				}
+				for i := range ts {
+					res.Tampered++
+					res.Parts["tamper:"+ts[i].class]++
+					judge(&res, b, ts[i].raw, &ts[i], touts[i])
+				}
+			}
+		}
+	}
+	return
+}
+
+// runConfirm re-runs one authorized successful case through the real commit path
+// (env.Chain.Step: proposer ApplyBlock on a copy, replica ApplyBlock on the main FSM, QC,
+// IndexBlock, Commit) on fresh chains and compares the state diff with the probe's.
+func runConfirm(j Job) (res Result) {
+	res.Outcomes, res.Parts = map[string]int{}, map[string]int{}
+	dropLab()
+	states := [2][]env.KV{}
+	for i := 0; i < 2; i++ {
+		l, err := txlab.NewLab(txlab.NewWorld(), 2, nil)
+		if err != nil {
+			res.Err = err.Error()
+			return
+		}
+		var txs [][]byte
+		if i == 1 {
+			b := build(l, *j.Confirm, 1)
+			if b.na != "" {
+				l.Close()
+				res.Err = "confirm case not buildable: " + b.na
+				return
+			}
+			txs = [][]byte{b.raw}
+		}
+		cm, e := l.C.Step(env.BlockSpec{Proposer: 0, Txs: txs})
+		if e != nil {
+			l.Close()
+			res.Err = "step: " + e.Error()
+			return
+		}
+		if i == 1 && (len(cm.Failed) != 0 || len(cm.BlockResult.Transactions) != 1) {
+			res.Parts["confirm-not-included"]++
+		}
+		states[i] = l.CurrentState()
+		l.Close()
+	}
+	res.Evaluations = 2
+	got := txlab.DiffDigest(txlab.Diff(states[0], states[1]))
+	if got == j.Want {
+		res.Parts["confirm-ok"]++
+	} else {
+		res.Parts["confirm-mismatch"]++
+		res.Err = fmt.Sprintf("commit path diff %s != probe diff %s for %s", got, j.Want, j.Confirm)
+	}
+	return
+}
+
+// ---------------------------------------------------------------------------------------
+
+func main() {
+	if mc.IsWorker() {
+		mc.ServeWorker(runJob)
+	}
+	if oj := os.Getenv("VERIF_ONEJOB"); oj != "" { // development aid: VERIF_ONEJOB=send/bls runs one job in-process
+		parts := strings.SplitN(oj, "/", 2)
+		if pf := os.Getenv("VERIF_PROF"); pf != "" {
+			f, _ := os.Create(pf)
+			_ = pprof.StartCPUProfile(f)
+			defer pprof.StopCPUProfile()
+		}
+		res := runJob(Job{Msg: parts[0], Kind: parts[1]})
+		fmt.Printf("cases=%d na=%d auth=%d tampered=%d evals=%d ms=%d err=%s\n", res.Cases, res.NA, res.AuthSuccess, res.Tampered, res.Evaluations, res.CPUms, res.Err)
+		for k, v := range res.Parts {
+			fmt.Println("  part", k, v)
+		}
+		for _, v := range res.Viols {
+			fmt.Println("  VIOL", v.Sig, v.What)
+		}
+		return
+	}
+	r := mc.Start("C05", "exploration", 85*time.Second, 25*time.Minute)
+	r.Assumptions = []string{
+		"ownership (who operates / receives for which validator, who sells which order, who proposed the certificate) is the harness' own genesis record, the world is static: genesis + 2 empty blocks, cases are applied at height 3",
+		"every case is a block with exactly one transaction applied on a copy of the FSM with proposer semantics (the first half of env.Chain.Step); one authorized case per job is re-run through the full commit path and must give the same diff",
+		"signature validity of a case is known by construction (who signed what), not re-computed with canopy's verifiers",
+		"governance transactions (changeParameter, daoTransfer) name their sender in the message; validator approval of proposals is node configuration (accept-all here) and outside this property",
+		"non-BLS validator principals are delegates (only delegates may carry non-BLS keys)",
+		"one chain per worker process at a time",
+	}
+	if r.Replay != "" {
+		doReplay(r)
+		return
+	}
+	var jobs []Job
+	for _, m := range txlab.MsgTypes {
+		for _, k := range kinds {
+			jobs = append(jobs, Job{Kind: k, Msg: m, Thorough: !r.Quick()})
+		}
+	}
+	pool := mc.NewProcPool(0)
+	results, crashed := mc.Map[Job, Result](pool, jobs, r.Expired)
+	tot := Result{Outcomes: map[string]int{}, Parts: map[string]int{}}
+	perKind := map[string]int{}
+	authPerMsgKind := map[string]int{}
+	var confirm []Job
+	var cpu int64
+	done := 0
+	for i, res := range results {
+		if crashed[i] {
+			r.Violation("C05:worker-crash:"+jobs[i].Msg, fmt.Sprintf("worker died twice on job %+v", jobs[i]), jobs[i])
+			continue
+		}
+		if res == nil {
+			continue
+		}
+		done++
+		if res.Err != "" {
+			r.Note("job %s/%s: %s", jobs[i].Msg, jobs[i].Kind, res.Err)
+			r.Exhaustive = false
+		}
+		tot.Evaluations += res.Evaluations
+		tot.Cases += res.Cases
+		tot.Tampered += res.Tampered
+		tot.NA += res.NA
+		tot.AuthSuccess += res.AuthSuccess
+		cpu += res.CPUms
+		perKind[jobs[i].Kind] += res.Cases
+		authPerMsgKind[jobs[i].Msg+"/"+txlab.BaseKind(jobs[i].Kind)] += res.AuthSuccess
+		for k, v := range res.Outcomes {
+			tot.Outcomes[k] += v
+		}
+		for k, v := range res.Parts {
+			tot.Parts[k] += v
+		}
+		for _, v := range res.Viols {
+			r.OnViol(v)
+		}
+		for _, s := range res.Samples {
+			if i%23 == 0 {
+				r.AddSample(s)
+			}
+		}
+		// commit-confirm: quick = the first authorized success of every job, thorough = all
+		for n, id := range res.AuthSuccessID {
+			if r.Quick() && n > 0 {
+				break
+			}
+			id := id
+			confirm = append(confirm, Job{Confirm: &id, Want: res.AuthDigests[n]})
+		}
+	}
+	if done < len(jobs) {
+		r.Note("grid stopped after %d of %d (message type, key kind) jobs (deadline)", done, len(jobs))
+	}
+	// non-vacuity: every message type must have an authorized state-changing success for BLS keys
+	for _, m := range txlab.MsgTypes {
+		if done == len(jobs) && authPerMsgKind[m+"/"+txlab.KBLS] == 0 {
+			r.Note("HARNESS GAP: no authorized successful %s transaction with BLS keys — the tamper stage never ran for it", m)
+			r.Exhaustive = false
+		}
+	}
+	cres, _ := mc.Map[Job, Result](pool, confirm, r.Expired)
+	confirmed, mismatched := 0, 0
+	for i, res := range cres {
+		if res == nil {
+			continue
+		}
+		tot.Evaluations += res.Evaluations
+		if res.Parts["confirm-ok"] > 0 {
+			confirmed++
+		} else {
+			mismatched++
+			r.Note("commit-confirm %s: %s", confirm[i].Confirm, res.Err)
+			r.Exhaustive = false
+		}
+	}
+	distinct := tot.Cases + tot.Tampered
+	fmt.Printf("C05 grid: %d base cases (+%d n/a), %d authorized successes, %d tampered variants, %d evaluations, %d distinct outcomes, commit-confirmed %d (mismatch %d), worker cpu %.1fs\n",
+		tot.Cases, tot.NA, tot.AuthSuccess, tot.Tampered, tot.Evaluations, len(tot.Outcomes), confirmed, mismatched, float64(cpu)/1000)
+	var ks []string
+	for k := range tot.Outcomes {
+		ks = append(ks, k)
+	}
+	sort.Strings(ks)
+	for _, k := range ks {
+		fmt.Printf("  outcome %-90s %d\n", k, tot.Outcomes[k])
+	}
+	authTable := map[string]int{}
+	for k, v := range authPerMsgKind {
+		if v > 0 {
+			authTable[k] = v
+		}
+	}
+	r.Finish(map[string]any{
+		"evaluations":              tot.Evaluations,
+		"distinct_nontrivial":      distinct,
+		"rule":                     "distinct (message type, signing kind, target object, signer role, mode[, tamper]) inputs that were constructible and reached canopy (n/a combinations excluded); each is evaluated on block path, single-verifier path and CheckTx, signature cache cold and warm",
+		"base_cases":               tot.Cases,
+		"not_applicable":           tot.NA,
+		"authorized_successes":     tot.AuthSuccess,
+		"tampered_variants":        tot.Tampered,
+		"distinct_outcomes":        len(tot.Outcomes),
+		"outcomes":                 tot.Outcomes,
+		"per_part":                 tot.Parts,
+		"base_cases_per_kind":      perKind,
+		"authorized_success_table": authTable,
+		"commit_confirmed":         confirmed,
+		"commit_confirm_mismatch":  mismatched,
+		"jobs":                     len(jobs),
+		"jobs_done":                done,
+		"worker_cpu_s":             float64(cpu) / 1000,
+		"kinds":                    kinds,
+		"roles":                    roles,
+	})
+}
+
+func doReplay(r *mc.Run) {
+	var rp struct {
+		Case CaseID `json:"case"`
+	}
+	if err := r.LoadReplay(&rp); err != nil {
+		fmt.Println("cannot load replay:", err)
+		r.Finish(map[string]any{"evaluations": 0, "distinct_nontrivial": 0, "rule": "replay"})
+	}
+	ev := 0
+	for i := 0; i < 5; i++ {
+		id := rp.Case
+		res := runJob(Job{Kind: id.Kind, Msg: id.Msg, Only: &id})
+		ev += res.Evaluations
+		for _, v := range res.Viols {
+			r.OnViol(v)
+		}
+		fmt.Printf("replay %d: %s evaluations=%d violations=%d\n", i, id, res.Evaluations, len(res.Viols))
+	}
+	_ = strings.TrimSpace
+	r.Finish(map[string]any{"evaluations": ev, "distinct_nontrivial": 2, "rule": "replay of one case, 5 times"})
 }
